@@ -1,10 +1,11 @@
 (* Properties_C19.v -- C19: diff and staged modes check exactly what git says changed.
    Property theorems only; each is closed by [exact <lemma>] and followed by Print Assumptions.
    The model is Git/TreeDiff.v (git/diff.rs, commands/check/check_git_diff.rs, check_scan.rs) AFTER
-   the repairs fixes/D21, D22, D32, D33, D34; the lemmas are in Git/Proofs_C19.v.
+   the repairs fixes/D21, D22, D32, D33, D34, D70, D71; the lemmas are in Git/Proofs_C19.v.
 
-   Reading guide.  A commit tree is a [gentry]; [blob_at t p] is the content of the regular file at
-   path p (None for directories, symbolic links, submodules, nothing).  [wf] = no tree lists a name
+   Reading guide.  A commit tree is a [gentry]; [blob_at t p] is the regular file at path p as git
+   records it: (executable bit, content); None for directories, symbolic links, submodules, nothing.
+   A chmod alone therefore makes two files differ, as it does for git diff --name-only (fix D70).  [wf] = no tree lists a name
    twice (git's own invariant).  Object ids are compared structurally (collision-free hashing, see
    the header of TreeDiff.v).  [canon] is the file-system oracle (std::fs::canonicalize, work-tree
    relative).  All statements are for arbitrary trees, indexes and file lists: no size bounds. *)
@@ -14,7 +15,7 @@ Import ListNotations.
 Open Scope N_scope.
 
 (* The recursive comparison with its id short-circuit and entry-kind cases computes exactly:
-   changed = regular files of B whose content is not what A has at that path,
+   changed = regular files of B whose (mode, content) is not what A has at that path,
    deleted candidates = regular files of A with no regular file at that path in B.
    No stability hypothesis on symlinks / submodules is needed after fix D32. *)
 Theorem C19_tree_diff_exact : forall bes tes, wf (Tree bes) -> wf (Tree tes) ->
@@ -103,8 +104,9 @@ Proof. exact restricted_run_spec. Qed.
 Print Assumptions C19_diff_run_is_restriction.
 
 (* check --staged: exactly the scanned files whose regular-file index entry differs from HEAD
-   (content; a missing entry on either side counts), for every index -- symbolic links, submodule
-   entries and removed-but-present paths included (fixes D21, D22), HEAD absent included. *)
+   (mode or content; a missing entry on either side counts), for every index -- symbolic links,
+   submodule entries, intent-to-add placeholders and removed-but-present paths included
+   (fixes D21, D22, D70, D71), HEAD absent included. *)
 Theorem C19_staged_exact : forall canon head idx files,
   wf_head head -> NoDup (map fst idx) ->
   (forall f, In f files -> canon f = Some f) ->
@@ -151,6 +153,15 @@ Example C19_alias_witness :
              [[[109]]] = [].
 Proof. vm_compute. reflexivity. Qed.
 Print Assumptions C19_alias_witness.
+
+(* D70 / D71 witnesses: a chmod alone is a change for --diff and for --staged; an intent-to-add
+   entry (git add -N) is not staged *)
+Example C19_mode_only_witness :
+  compare_trees_recursive [([97], Blob false [1])] [([97], Blob true [1])] = [(Chg, [[97]])] /\
+  get_staged_files (fun p => Some p) (Some [([107], Blob false [1])])
+    [([[107]], IBlob true [1]); ([[110]], IIntent)] = [[[107]]].
+Proof. split; vm_compute; reflexivity. Qed.
+Print Assumptions C19_mode_only_witness.
 
 (* a three-dot range is split at the first two dots *)
 Example C19_three_dots : parse_diff_range [65; 46; 46; 46; 66] = RangeOk [65] [46; 66].
